@@ -232,6 +232,21 @@ fn scenario_update(rep: &mut Report, rng: &mut Rng) {
     };
     let ref_orig = orig.data.clone();
     let ref_rebuilt = rebuilt0.data.clone();
+    // "a complete, valid result": the file the fault-free update leaves behind must still be the
+    // edited metadata followed by the untouched audio (judged by the independent decoder) - the
+    // fault runs below are compared with this reference, so it has to be right itself
+    {
+        let result = if rebuilt_flag { &ref_rebuilt } else { &ref_orig };
+        let before = decode_file(&file, &Rules::LENIENT);
+        let after = decode_file(result, &Rules::LENIENT);
+        rep.eval();
+        match (&before, &after) {
+            (Ok(b), Ok(a)) if a.pcm == b.pcm && file[b.frames_start..b.end] == result[a.frames_start..a.end] => rep.count("outcome", "update:fault-free-result-valid"),
+            (Ok(_), Ok(_)) => rep.violation("false-success", "ok-but-invalid:update:audio-changed", format!("update_file returned Ok({rebuilt_flag}) without any fault, but the audio frames of the result differ from the original's"), J::obj().set("scenario", "update_file").set("file", J::hex(&file)).set("value_len", value_len)),
+            (Ok(_), Err(e)) => rep.violation("false-success", format!("ok-but-invalid:update:{}", e.rule), format!("update_file returned Ok({rebuilt_flag}) without any fault, but the result is not a valid stream any more: {e}"), J::obj().set("scenario", "update_file").set("file", J::hex(&file)).set("value_len", value_len)),
+            _ => {}
+        }
+    }
     rep.count("update_path", if rebuilt_flag { "rebuilt" } else { "in-place" });
     // the path-based convenience (`metadata::update(path, ..)`, which reads and rewrites the same
     // file) must leave exactly what the in-memory update produced whenever it reports success
@@ -536,6 +551,16 @@ fn c14_case(rep: &mut Report, rng: &mut Rng, thorough: bool) {
                         );
                     } else {
                         rep.count("outcome", if dd.error.is_some() { "frames-recovered-then-error" } else { "frames-recovered-then-eos" });
+                    }
+                    // "it never yields samples that were not written": also not when the caller polls
+                    // again after the error - the prefix has simply ended
+                    if dd.samples_after_error > 0 {
+                        rep.violation(
+                            "lost-or-fabricated-frames",
+                            format!("crash-prefix:{kind:?}:samples-after-error"),
+                            format!("crash at byte {p} of {}: {kind:?} reported {:?} and then handed out {} more samples when polled again", full.len(), dd.error, dd.samples_after_error),
+                            replay(),
+                        );
                     }
                 }
             }
